@@ -48,9 +48,9 @@ type AbsTC struct {
 
 // AbsAgg is the abstract aggregate QC; QCs lists [id, qcname].
 type AbsAgg struct {
-	View int     `json:"view"`
+	View int      `json:"view"`
 	QCs  [][2]any `json:"qcs"`
-	Sig  AbsSig  `json:"sig"`
+	Sig  AbsSig   `json:"sig"`
 }
 
 // World instantiates abstract objects for one cluster (n members + one outsider with a key).
